@@ -17,7 +17,7 @@ for d in sorted(glob.glob(os.path.join(root,'*'))):
       'property':prop,
       'origin':'fresh sub-agent given only the property text and a scratch worktree of /repo',
       'summary':a.get('summary') or a.get('description') or a.get('change') or '',
-      'needs_to_manifest':a.get('what_it_needs_to_manifest') or a.get('needs') or a.get('what_it_needs') or '',
+      'needs_to_manifest':a.get('needs_to_manifest') or a.get('what_it_needs_to_manifest') or a.get('needs') or a.get('what_it_needs') or '',
       'patch':'patch.diff','demonstration':demo,'demo_test':a.get('demo_test'),
       'what_i_ran':[
         'tools/seeded.sh: scratch worktree of /repo HEAD under /var/tmp, git apply patch.diff, go build ./..., package test suite inside unshare -n, demonstration test with the change (must fail) and after git apply -R (must pass); worktree removed',
